@@ -26,3 +26,7 @@ def replay_native(native):
     if native["function"] == "sorted_division_locations":
         return sdl_native.replay(native)
     return {"reproduced": "rerun ./check C45"}
+
+
+# thorough tier: deliberate edits that must turn an obligation red (applied to a scratch copy, never to /repo)
+MUTATIONS = [('contracts.dfio', 'sorted_division_locations', 'dask/dataframe/io/io.py', '            pos = int(offsets[ind])', '            pos = i')]
